@@ -150,10 +150,10 @@ func runEngineK(p *Prog, o *obls) {
 				}
 				if st, ok := n.Underlying().(*types.Struct); ok {
 					for i := 0; i < st.NumFields(); i++ {
-						if st.Field(i).Name() == "interceptors" {
+						if cFieldName(st.Field(i)) == "interceptors" {
 							chains = append(chains, n)
 						}
-						if st.Field(i).Name() == "factories" {
+						if cFieldName(st.Field(i)) == "factories" {
 							builders = append(builders, n)
 						}
 					}
@@ -245,6 +245,12 @@ func k1ChainMethod(p *Prog, fn *ssa.Function, m string, chainKey string) string 
 			calls = append(calls, c)
 		}
 	})
+	if len(calls) == 0 && (m == "Close" || strings.HasPrefix(m, "Unbind")) {
+		// the loop over the members was moved into a helper method of the chain
+		if why, handled := k1Delegated(p, fn, m, chainKey); handled {
+			return why
+		}
+	}
 	if len(calls) != 1 {
 		return fmt.Sprintf("expected exactly one call on a chain member, found %d", len(calls))
 	}
@@ -518,4 +524,136 @@ func k2Build(p *Prog, fn *ssa.Function, regKey string) string {
 		return "an empty registry does not build a NoOp"
 	}
 	return ""
+}
+
+// k1Delegated: fn contains no member call itself but calls exactly one helper method on its own receiver that does.
+// The helper is checked like the method (one exhaustive, unconditional range over the interceptors slice); the link
+// between the two is checked here: Close returns flattenErrs(helper()), Unbind passes its StreamInfo on.
+func k1Delegated(p *Prog, fn *ssa.Function, m string, chainKey string) (string, bool) {
+	var via *ssa.Call
+	var helper *ssa.Function
+	n := 0
+	instrsOf(fn, func(in ssa.Instruction) {
+		c, ok := in.(*ssa.Call)
+		if !ok {
+			return
+		}
+		sc := c.Call.StaticCallee()
+		if sc == nil || !p.InUniverse(sc) || sc.Signature.Recv() == nil || len(c.Call.Args) == 0 || p.origin(c.Call.Args[0]) != ssa.Value(fn.Params[0]) {
+			return
+		}
+		has := false
+		instrsOf(sc, func(in2 ssa.Instruction) {
+			if c2, ok := in2.(*ssa.Call); ok && c2.Call.IsInvoke() && types.Identical(c2.Call.Value.Type(), p.rootNamed("Interceptor")) {
+				has = true
+			}
+		})
+		if has {
+			n++
+			via, helper = c, sc
+		}
+	})
+	if n != 1 {
+		return "", false
+	}
+	var calls []*ssa.Call
+	instrsOf(helper, func(in ssa.Instruction) {
+		if c, ok := in.(*ssa.Call); ok && c.Call.IsInvoke() && types.Identical(c.Call.Value.Type(), p.rootNamed("Interceptor")) {
+			calls = append(calls, c)
+		}
+	})
+	if len(calls) != 1 {
+		return fmt.Sprintf("expected exactly one call on a chain member in %s, found %d", funcKey(helper), len(calls)), true
+	}
+	call := calls[0]
+	if call.Call.Method.Name() != m {
+		return fmt.Sprintf("members receive %s instead of %s", call.Call.Method.Name(), m), true
+	}
+	var loop *rangeLoop
+	for _, l := range findRangeLoops(helper) {
+		if l.Blocks[call.Block()] {
+			loop = l
+		}
+	}
+	if loop == nil {
+		return "the member call is not inside a range loop", true
+	}
+	if !isFieldLoad(loop.Slice, chainKey, "interceptors") {
+		return "the loop does not range over the whole interceptors slice (" + valueString(loop.Slice) + ")", true
+	}
+	if !loop.isElem(p, call.Call.Value) {
+		return "the call's receiver is not the loop element", true
+	}
+	if len(loop.Exits) > 0 {
+		return "the loop can be left early: not every member is visited", true
+	}
+	for b := range loop.Blocks {
+		if b != loop.Header && len(b.Succs) != 1 {
+			return "the member call is conditional inside the loop", true
+		}
+	}
+	for _, f := range []*ssa.Function{fn, helper} {
+		bad := ""
+		instrsOf(f, func(in ssa.Instruction) {
+			if st, ok := in.(*ssa.Store); ok && !isLocalAddr(addrRoot(st.Addr)) {
+				bad = "the method writes to shared state at " + p.instrPos(st)
+			}
+		})
+		if bad != "" {
+			return bad, true
+		}
+	}
+	// the helper call itself is unconditional in fn
+	if via.Block() != fn.Blocks[0] && !via.Block().Dominates(fn.Blocks[len(fn.Blocks)-1]) {
+		for _, b := range fn.Blocks {
+			if _, ok := b.Instrs[len(b.Instrs)-1].(*ssa.Return); ok && !via.Block().Dominates(b) {
+				return "the helper that visits the members is called conditionally", true
+			}
+		}
+	}
+	switch {
+	case strings.HasPrefix(m, "Unbind"):
+		par, ok := p.origin(call.Call.Args[0]).(*ssa.Parameter)
+		if !ok || par.Parent() != helper {
+			return "members receive a different StreamInfo", true
+		}
+		for i, q := range helper.Params {
+			if q == par && (i >= len(via.Call.Args) || p.origin(via.Call.Args[i]) != ssa.Value(fn.Params[1])) {
+				return "members receive a different StreamInfo", true
+			}
+		}
+	case m == "Close":
+		appended := false
+		for _, in := range call.Block().Instrs {
+			if c, ok := in.(*ssa.Call); ok && builtinName(&c.Call) == "append" {
+				if p.backwardReaches(c.Call.Args[1], func(v ssa.Value) bool { return v == ssa.Value(call) }) {
+					appended = true
+				}
+			}
+		}
+		if !appended {
+			return "a member's Close error is not appended unconditionally", true
+		}
+		for _, b := range helper.Blocks {
+			if ret, ok := b.Instrs[len(b.Instrs)-1].(*ssa.Return); ok {
+				if len(ret.Results) == 0 || !p.backwardReaches(ret.Results[0], func(v ssa.Value) bool { return v == ssa.Value(call) }) {
+					return "the helper does not return the members' Close errors", true
+				}
+			}
+		}
+		for _, b := range fn.Blocks {
+			ret, ok := b.Instrs[len(b.Instrs)-1].(*ssa.Return)
+			if !ok {
+				continue
+			}
+			fc, ok := ret.Results[0].(*ssa.Call)
+			if !ok || fc.Call.StaticCallee() == nil || !strings.HasSuffix(funcKey(fc.Call.StaticCallee()), "lattenErrs") && !strings.Contains(funcKey(fc.Call.StaticCallee()), "K2Flatten") {
+				return "Close does not return flattenErrs(errs)", true
+			}
+			if !p.backwardReaches(fc.Call.Args[0], func(v ssa.Value) bool { return v == ssa.Value(via) }) {
+				return "the members' Close errors do not reach flattenErrs", true
+			}
+		}
+	}
+	return "", true
 }
